@@ -1187,6 +1187,32 @@ def _m(spec, r):
     return True
 
 
+@mutation("timed.function_of_state", "reject", None, model=False)
+def _m(spec, r):
+    """the duration of a timed compartment is fixed when the model is built: a timed parameter whose function depends (directly, or through another parameter)
+    on a compartment, a characteristic or the time cannot be honoured -- such a framework would be accepted and then fail at Model() with an assertion"""
+    i = Info(spec)
+    tp = [p for p in i.trans_pars() if i.timed(p)]
+    if tp:
+        p = pick(r, tp)
+    else:  # no timed parameter in this framework: make one (as timed.two_outflows does)
+        p = pick(r, [p for p in _untimed_simple(i) if len(i.from_comps(p)) == 1])
+        if p is None:
+            return False
+        i.pars[p].update(timed="y", format="duration", targetable="n")
+        _clear_ts(i.pars[p])
+    comp = i.from_comps(p)[0]
+    how = r.choice(["direct", "indirect", "time"])
+    if how == "direct":
+        i.pars[p]["function"] = "1 + %s/(%s + 1)" % (comp, comp)
+    elif how == "time":
+        i.pars[p]["function"] = "1 + 0.01*(t - 2000)"
+    else:
+        q = i.new_par("tvar", None, pt=i.pt(i.comps[comp]), page=None, default=None, function="%s/(%s + 1)" % (comp, comp))
+        i.pars[p]["function"] = "1 + %s" % q
+    return True
+
+
 @mutation("timed.from_junction", "reject", "timedFromSpecial")
 def _m(spec, r):
     i = Info(spec)
